@@ -204,3 +204,22 @@ def codepoint_docs(rng, thorough=False, sample=3000):
                 0xFFFF, 0x10000, 0x1FFFF, 0x20000, 0xE0001, 0x10FFFE, 0x10FFFF]
         cps = list(range(0x80, 0x3000)) + edge + [rng.randrange(0x3000, sys.maxunicode + 1) for _ in range(sample)]
     return ['a' + chr(c) + ' \\x' + chr(c) + '{b' + chr(c) + '}' + chr(c) for c in cps]
+
+
+# blanks in the sense of str.isspace() that the tokenizer does not treat as spacers (they are `Other` characters):
+# a run of them between two nodes is a whitespace-only TEXT leaf - dropped from `contents` like any other blank leaf
+EXOTIC_BLANKS = ['\x0b', '\x0c', '\x1c', '\x1d', '\x1e', '\x1f', '\x85', '\xa0', ' ', ' ', ' ', ' ',
+                 ' ', ' ', ' ', ' ', '　']
+
+
+def blank_run_docs():
+    out = []
+    for c in EXOTIC_BLANKS:
+        for run in (c, c + c, c + ' ', ' ' + c, c + '\n' + c):
+            out.append('\\section{Intro}' + run + '\\section{Methods}')
+            out.append('\\textbf{\\a' + run + '\\b}')
+            out.append('$x$' + run + '$y$')
+            out.append('\\begin{itemize}\\item' + run + '\\x' + run + '\\item p' + run + '\\end{itemize}')
+            out.append('{' + run + '{a}' + run + '}' + run)
+            out.append('\\begin{a}' + run + '\\end{a}')
+    return out
